@@ -4,7 +4,8 @@
 (* kind "I"  one public call of one index on a raster whose cells are band tuples:        *)
 (*      idx, par (halves), sh, bs (one tuple of band values per cell, signature order;    *)
 (*      integers or NAN), obs (one <<k, p, q>> per cell).  The real input was bs * 2^sh   *)
-(*      in the job's dtype (sh > 0: values at the overflow edge of the integer dtype);    *)
+(*      in the job's dtype (sh > 0: values at the overflow edge of the integer dtype;     *)
+(*      sh < 0: float inputs scaled DOWN, sums far below float32 eps but still normal);   *)
 (*      that is only admissible for configurations Spectral.tla proves scale-invariant    *)
 (*      (DoubleKeeps) - EBBI, which scales with the square root, is divided back by the    *)
 (*      bridge.  obs: k = 0 NaN; k = 1 the float is within 4 float32 ulp (of max(|x|,1),  *)
@@ -38,7 +39,7 @@ FirstBadI(c, i) ==
        IF cl # "ok" THEN <<cl \o "_" \o c.idx, "cell_" \o ToString(i)>> ELSE FirstBadI(c, i + 1)
 
 VI(c) ==
-  IF c.sh > 0 /\ ~(ScaleInvariant(c.idx, c.par) \/ (c.idx = "ebbi" /\ c.sh % 2 = 0))
+  IF c.sh # 0 /\ ~(ScaleInvariant(c.idx, c.par) \/ (c.idx = "ebbi" /\ c.sh % 2 = 0))
      THEN <<"machinery_scaled_case_not_admissible", "">>
   ELSE IF c.shape_ok # 1 THEN <<"output_shape_" \o c.idx, "">>
   ELSE FirstBadI(c, 1)
